@@ -507,7 +507,7 @@ static RegisterOp r_p5({PERM_OPS[5], "C13", 0, nullptr, exec_perm, true});
 static RegisterOp r_p6({PERM_OPS[6], "C13", 0, nullptr, exec_perm, true});
 
 // ------------------------------------------------------------------ property C13
-static Case gen_C13(const GenCtx &ctx) { return gen_from_ops("C13", ctx, 0); }
+static Case gen_C13(const GenCtx &ctx) { return gen_from_ops("C13", ctx, 30); }
 static std::vector<Case> enum_C13(const GenCtx &ctx) {
   std::vector<Case> v;
   for (int n : {64, 65, 127, 128, 130, 200})
